@@ -94,15 +94,20 @@ Definition c_cleanup_peer (s : st) (p : Z) : st :=
   let keep := fun e : pe => negb (pe_peer e =? p) in
   set_cons s (filter keep (s_ctot s)) (fun k => filter keep (s_cips s k)) (fun k => filter keep (s_casns s k)).
 
-(* Reserve(p, a, expiry): the peer's old entries are removed BEFORE the cap
-   checks, and stay removed when a check refuses (as in the code). *)
+(* Reserve(p, a, expiry): the peer's own entries are not counted against the
+   limits; they are removed only once the new reservation is accepted, so a
+   refused refresh leaves the existing reservation in place (fix 648cd92). *)
+Definition others (p : Z) (l : list pe) : Z :=
+  zlength (filter (fun e : pe => negb (pe_peer e =? p)) l).
+
 Definition c_reserve (c : cfg) (s : st) (p : Z) (a : addr) (now exp : Z) : st * bool :=
-  let s1 := c_cleanup_peer (c_cleanup s now) p in
-  if zlength (s_ctot s1) >=? c_maxrsvp c then (s1, false)
-  else if a_noip a then (s1, false)
-  else if zlength (s_cips s1 (a_ip a)) >=? c_maxip c then (s1, false)
-  else if negb (a_asn a =? 0) && (zlength (s_casns s1 (a_asn a)) >=? c_maxasn c) then (s1, false)
+  let s0 := c_cleanup s now in
+  if others p (s_ctot s0) >=? c_maxrsvp c then (s0, false)
+  else if a_noip a then (s0, false)
+  else if others p (s_cips s0 (a_ip a)) >=? c_maxip c then (s0, false)
+  else if negb (a_asn a =? 0) && (others p (s_casns s0 (a_asn a)) >=? c_maxasn c) then (s0, false)
   else
+    let s1 := c_cleanup_peer s0 p in
     let e := mkPe exp p in
     (set_cons s1 (s_ctot s1 ++ [e]) (upd (s_cips s1) (a_ip a) (s_cips s1 (a_ip a) ++ [e]))
        (if a_asn a =? 0 then s_casns s1 else upd (s_casns s1) (a_asn a) (s_casns s1 (a_asn a) ++ [e])),
@@ -201,14 +206,15 @@ Definition handle_reserve (c : cfg) (s : st) (p k : Z) (acl : bool) (inj : Z) : 
       let s1 := if hooked then close_peer c (advance_to c s (s_now s + 1)) p else s in
       let seen := fun x : Z => if hooked then 0 else x in
       if negb acl then (s1, robs (seen ST_DENIED) 0 ST_DENIED)
+      (* under r.mx: the peer may have disconnected meanwhile (fix 6afff63) *)
+      else if negb (connected s1 p) then (s1, robs (seen ST_CONNFAIL) 0 ST_CONNFAIL)
       else
         let exp := s_now s1 + c_ttl c in
         let '(s2, ok) := c_reserve c s1 p a (s_now s1) exp in
         if negb ok then (s2, robs (seen ST_REFUSED) 0 ST_REFUSED)
         else
           let s3 := set_rtag (set_rsvp s2 (upd (s_rsvp s2) p (Some exp))) (upd (s_rtag s2) p true) in
-          if hooked then (s3, robs 0 1 ST_CONNFAIL)   (* response write fails; reservation kept *)
-          else (s3, [ST_OK; 1; ST_OK; 1; 1; p; (exp / 1000) * 1000; (exp / 1000) * 1000]).
+          (s3, [ST_OK; 1; ST_OK; 1; 1; p; (exp / 1000) * 1000; (exp / 1000) * 1000]).
 
 (* ---- handleConnect -------------------------------------------------------------- *)
 (* obs = [client status; relay status; circuit id (0 = none)] *)
